@@ -349,7 +349,7 @@ PARTS["pcodec"] = dict(
 )
 PARTS["rcodec"] = dict(
     component="rcodec", spec="MC_RpcCodec.tla",
-    mc={"quick": ["MC_RpcCodec.cfg", "MC_RpcCodec_inner.cfg"], "thorough": ["MC_RpcCodec.cfg", "MC_RpcCodec_inner.cfg"]},
+    mc={"quick": ["MC_RpcCodec.cfg"], "thorough": ["MC_RpcCodec.cfg"]},
     goals_cfg=None, goals=[], sim={"quick": [], "thorough": []},
     generate=codec_gen.behaviours("MC_RpcCodec_emit.cfg", {"quick": 8, "thorough": 64}),
     drive={"quick": 8000, "thorough": 400000},
